@@ -57,8 +57,11 @@ NoPanic(e) == ~e.panic
 SecondReturns(e) == e.cls.c2 # "none" => (e.err2 \notin {"hang", "none"} /\ 2 * e.dur2 <= e.td /\ ~e.early2)
 SecondSame(e) == e.cls.c2 \in {"same", "conc"} => e.err2 = e.err
 SecondQuiet(e) == e.cls.c2 # "none" => e.after2 = e.after
-\* P5
-ServerSeesEof(e) == (e.cls.kind \in {"server", "pure"} /\ Running(e)) => (e.ceof >= 0 /\ 2 * e.ceof <= e.td)
+\* P1 (first step) and P5: the input stream is closed first - a child that reads its stdin (every class but the
+\* single-threaded one blocked on a full stdout pipe) sees the EOF promptly and before any SIGTERM; for the server
+\* kinds "sees" means that Server.Run over StdioTransport returned
+Reads(e) == Running(e) /\ ~(e.cls.kind = "raw" /\ e.cls.out = "full")
+StdinClosedFirst(e) == Reads(e) => (e.ceof >= 0 /\ 2 * e.ceof <= e.td /\ (e.cterm >= 0 => e.ceof <= e.cterm))
 PureClean(e) == e.cls.kind = "pure" => (e.err = "nil" /\ e.st = "exit0" /\ e.cterm < 0 /\ ~e.runerr /\ 2 * e.dur <= e.td)
 
 Boundary(e) == Running(e) /\ (e.cls.eof = "attd" \/ e.cls.term = "attd")
@@ -83,7 +86,7 @@ MNext == /\ l <= NLines /\ l' = l + 1
                       /\ Check(l, "NoNeedlessKill", NoNeedlessKill(e))
                       /\ Check(l, "Bounded", Bounded(e))
                       /\ Check(l, "Prompt", Prompt(e))
-                      /\ Check(l, "ServerSeesEof", ServerSeesEof(e))
+                      /\ Check(l, "StdinClosedFirst", StdinClosedFirst(e))
                  ELSE TRUE
               /\ Check(l, "SecondReturns", e.probe \/ SecondReturns(e))
               /\ Check(l, "PureClean", e.probe \/ PureClean(e))
